@@ -5,3 +5,4 @@ import AITB.Props.C14
 import AITB.Model.Belief
 import AITB.Props.C05
 import AITB.Props.C05Src
+import AITB.Props.C05Round
